@@ -113,7 +113,21 @@ def gen_cases(tier):
             if k % 6 == 0:
                 le = G.gen_expr(rnd, sch, liberal=True)
                 lib_text.append((sch, le, dbs))
+        # directed exploration shapes (added after seed C06/5): a path that is referenced only from
+        # inside a non-fenced branch scope - an indirection on a freshly built tuple used as a
+        # tuple element / operand - must still be counted once per element of the path.  Raw text:
+        # the expression renderer deliberately detaches roots under a projection source.
+        tid = rnd.randint(1, len(sch) - 1)
+        pids = [int(p[1]) for p in sch[tid][2:]]
+        T, P = f'T{tid}', f'T{tid}.p{rnd.choice(pids)}'
+        for q in (f'select (({T}, 1).0, ({T}, 1).0)', f'select ((select {T}), ({T}, 1).0)',
+                  f'select (({P}, 1).0, ({P}, 1).0)', f'select (({T}, 1).0, 2)', f'select ({T}, 1).0',
+                  f'select (({T}, 1).0, {T})'):
+            DIRECTED_TEXT.append((sch, q, dbs))
     return core, mal, lib_text
+
+
+DIRECTED_TEXT = []
 
 
 def gen_inheritance_cases(rnd, n):
@@ -477,6 +491,9 @@ def run(tier):
             continue
         text_cases.append(json.dumps({'schema': G.sx_str(sch), 'q': q, 'dbs': [G.sx_str(x) for x in dbs]}))
         text_meta.append(('liberal', (sch, le, dbs)))
+    for sch, q, dbs in DIRECTED_TEXT:
+        text_cases.append(json.dumps({'schema': G.sx_str(sch), 'q': q, 'dbs': [G.sx_str(x) for x in dbs]}))
+        text_meta.append(('directed', q))
     inh = gen_inheritance_cases(lib.rng('C06inherit'), 12 if not thorough else 60)
     for t in inh:
         text_cases.append(json.dumps(t))
@@ -607,9 +624,14 @@ def run(tier):
         if fid not in seen_ids:
             seen_ids.add(fid)
             _kf(fid, what)
+    n_directed_reported = [0]
     for j, r in text_hits[:40]:
         meta = text_meta[j]
         fid = meta[1] if meta[0] == 'corpus' else None
+        if meta[0] == 'directed':
+            n_directed_reported[0] += 1
+            if n_directed_reported[0] > 2:      # same directed shape over many schemas: two replays are enough
+                continue
         if meta[0] == 'liberal' and exe:
             # classification hint: the tags of the same term read as a binder-explicit query
             sch, le, dbs = meta[1]
@@ -631,7 +653,8 @@ def run(tier):
                 for i in ids:
                     known_once(i, known[i]['what'] + f' (inheritance stream: `{r["q"]}`)')
                 continue
-        if meta[0] == 'liberal' and 'C06-F10' in known and repeated_root(meta[1][1]):
+        if meta[0] == 'liberal' and 'C06-F10' in known and f10_shape(meta[1][0], meta[1][1]) \
+                and all(m.split(':')[0] in ('dup', 'card-upper', 'shape-dup', 'shape-upper') for m in r['mon']):
             # the same (not detached) type root occurs twice: it is factored, the statement is
             # evaluated once per object, a link path from it is still classified UNIQUE
             known_once('C06-F10', known['C06-F10']['what'] + f' (exploration stream: `{r["q"]}`)')
@@ -802,6 +825,25 @@ def repeated_root(e):
             if str(n[1]) in seen:
                 return True
             seen.add(str(n[1]))
+    return False
+
+
+def f10_shape(sch_sx, e):
+    """the input predicate of known finding C06-F10 (narrowed after seed C06/5): the same
+    not-detached type root occurs twice AND one occurrence is the source of a LINK step (the
+    finding is about a link path of a factored root being classified UNIQUE / a filter on top of it
+    AT_MOST_ONE): only over-claims of uniqueness / upper bounds qualify, never a violated lower
+    bound"""
+    if not repeated_root(e):
+        return False
+    sch = G.Schema(sch_sx)
+    for n in G.walk(e):
+        if n[0] == 'ptr' and n[1][0] == 'root':
+            try:
+                if sch.ptrs[int(n[2])]['kind'] == 'l':
+                    return True
+            except (KeyError, ValueError):
+                pass
     return False
 
 
